@@ -34,3 +34,13 @@ Theorem iup_contour_spec : forall deltas coords i, length coords = length deltas
         (q < i /\ (forall k, i < k < length deltas -> ~ explicit deltas k) /\ (forall k, k < q -> ~ explicit deltas k)))%nat).
 Proof. exact Proofs.iup_contour_spec. Qed.
 Print Assumptions iup_contour_spec.
+
+(* ---- advances of a variable font go through HVAR's delta-set index map (ModelVarIdx.v: getEntryFormat, VarIdxMapValue.write / read,
+   the DeltaSetIndexMap table): for EVERY list of variation indices the entry format chosen from the OR of the indices is wide
+   enough, compile succeeds, and decompile returns exactly the indices -- no glyph is sent to another glyph's deltas *)
+From FV Require C05.ModelVarIdx C05.ProofsVarIdx.
+Theorem index_map_roundtrip : forall mapping,
+  Forall ProofsVarIdx.valid_idx mapping -> (Z.of_nat (length mapping) < 4294967296)%Z ->
+  exists bytes, ModelVarIdx.dsim_compile mapping = Ok bytes /\ ModelVarIdx.dsim_decompile bytes = Ok mapping.
+Proof. exact ProofsVarIdx.index_map_roundtrip. Qed.
+Print Assumptions index_map_roundtrip.
